@@ -451,4 +451,45 @@ theorem tables_eq {i : Input} (h : WF i = true) : tables i = specSorted i.decl :
 theorem tables_perm {i : Input} (h : WF i = true) : (tables i).Perm i.decl := by
   rw [tables_eq h]; exact sortBy_perm _ _
 
+/-! ## the declaration order is irrelevant -/
+
+/-- two lists sorted strictly ascending by an injective-on-them key that are permutations of each other are equal -/
+theorem eq_of_perm_of_strict (key : Const → Int) :
+    ∀ (l1 l2 : List Const), l1.Perm l2 → l1.Pairwise (fun a b => key a < key b) → l2.Pairwise (fun a b => key a < key b) → l1 = l2
+  | [], l2, hp, _, _ => (hp.symm.eq_nil).symm
+  | a :: r1, [], hp, _, _ => absurd hp.eq_nil (by simp)
+  | a :: r1, b :: r2, hp, h1, h2 => by
+    rw [List.pairwise_cons] at h1 h2
+    have hab : a = b := by
+      have ha : a ∈ b :: r2 := hp.mem_iff.mp (List.mem_cons_self)
+      have hb : b ∈ a :: r1 := hp.mem_iff.mpr (List.mem_cons_self)
+      rcases List.mem_cons.mp ha with h | h
+      · exact h
+      · rcases List.mem_cons.mp hb with h' | h'
+        · exact h'.symm
+        · have := h1.1 b h'
+          have := h2.1 a h
+          omega
+    subst hab
+    congr 1
+    exact eq_of_perm_of_strict key r1 r2 (List.Perm.cons_inv hp) h1.2 h2.2
+
+theorem sortBy_strict (l : List Const) (hnd : (l.map (·.val)).Nodup) :
+    (sortBy (·.val) l).Pairwise (fun a b => a.val < b.val) := by
+  have hs := sortBy_sorted (·.val) l
+  have hn : ((sortBy (·.val) l).map (·.val)).Nodup := ((sortBy_perm (·.val) l).map _).nodup_iff.mpr hnd
+  unfold List.Nodup at hn
+  rw [List.pairwise_map] at hn
+  exact (hs.and hn).imp (fun ⟨a, b⟩ => by omega)
+
+/-- the declaration ORDER of the constants is irrelevant: two declarations with the same constants (distinct values), in
+    whatever order and however spread over blocks and files, give the same table -/
+theorem specSorted_perm (d1 d2 : List Const) (hp : d1.Perm d2) (hnd : (d1.map (·.val)).Nodup) :
+    specSorted d1 = specSorted d2 := by
+  unfold specSorted
+  have hnd2 : (d2.map (·.val)).Nodup := (hp.map _).nodup_iff.mp hnd
+  exact eq_of_perm_of_strict (·.val) _ _
+    (((sortBy_perm _ d1).trans hp).trans (sortBy_perm _ d2).symm) (sortBy_strict d1 hnd) (sortBy_strict d2 hnd2)
+
+
 end ShootVerif.Enum
